@@ -277,6 +277,26 @@ pub fn run(ctx: &mut Ctx) {
     }
     block_ties(ctx, &prims);
     env_children(ctx, thorough);
+    // transforms on shards of more than half a megabyte (working set beyond 8 MiB): every engine, full truncation, so every
+    // output is contract-valid and the whole memory must be identical (a size-dependent change of algorithm shows here)
+    for n in 0..(if thorough { 6 } else { 2 }) {
+        let size = if n % 2 == 0 { 16usize } else { 32 };
+        let len64 = 8192 / (size / 16) + ctx.rng.range(1, 40);
+        let inverse = n % 4 >= 2;
+        let delta = size * ctx.rng.range(0, 4095 / (size / 16));
+        let mut data = vec![[0u8; 64]; (size + 1) * len64];
+        for b in data.iter_mut() { b.copy_from_slice(&ctx.rng.bytes(64)); }
+        let c = FftCase { inverse, count: size + 1, len64, pos: 0, size, trunc: size, delta, data };
+        let outs: Vec<Vec<[u8; 64]>> = prims.iter().map(|(_, p)| run_fft(p.as_ref(), &c)).collect();
+        ctx.evaluations += 1;
+        ctx.count("primitive", "huge-shard transform");
+        for k in 1..outs.len() {
+            if outs[k] != outs[0] {
+                let case = Case { name: format!("huge: {}", describe(&c)), lines: vec![], with_model: false };
+                ctx.oracle_fail(format!("engines {} and {} differ on shards of {} blocks: {}", prims[0].0, prims[k].0, len64, describe(&c)), &case, None);
+            }
+        }
+    }
     // end to end with mixed engines: reuse the C01 generator at a smaller scale
     let save = ctx.tier.clone();
     ctx.tier = if thorough { "quick".into() } else { "mini".into() };
